@@ -790,6 +790,26 @@ def _probe_strided_mask(ctx):
         check_views(ctx, res, m.select([int(i) for i in np.nonzero(mask)[0]]))
 
 
+def _probe_narrow_index_dtype(ctx):
+    """Index arrays of a narrow integer type with negative entries on a list with more atoms than that type can count."""
+    for n, dt, vals in ((132, "int8", [27, -114, -6, 3, -51]), (130, "int8", [-1, 0]), (40000, "int16", [-39000, 5, -1])):
+        rows = [[i, i + 1, 1 + i % 3] for i in range(0, min(n, 300) - 1)]
+        bl = BondList(n, np.array(rows, dtype=np.int64))
+        idx = np.array(vals, dtype=dt)
+        ctx.log("getitem_narrow_dtype", n, dt, vals)
+        ctx.op("probe_narrow_index_dtype")
+        ctx.oracle("index_object_accepted")
+        try:
+            res = bl[idx]
+        except Exception as e:
+            ctx.fail("index_object_accepted", "%s index array %s refused for %d atoms: %s: %s" % (dt, vals, n, type(e).__name__, e))
+        pos = {v % n: k for k, v in enumerate(vals)}
+        want = {(min(pos[a], pos[b]), max(pos[a], pos[b]), t) for a, b, t in rows if a in pos and b in pos}
+        got = {(int(a), int(b), int(t)) for a, b, t in res.as_array()}
+        if res.get_atom_count() != len(vals) or got != want:
+            ctx.fail("views_vs_model", "BondList[%s index array]: %s, expected %s" % (dt, sorted(got), sorted(want)))
+
+
 def _probe_wrong_length_mask(ctx):
     """S04 trigger class: boolean masks whose length is not the atom count."""
     rng = np.random.default_rng(4)
@@ -801,4 +821,5 @@ PROBES = {
     "scalar_index_below_minus_n": _probe_scalar_low,
     "wrong_length_mask": _probe_wrong_length_mask,
     "noncontiguous_mask": _probe_strided_mask,
+    "narrow_index_dtype_negative": _probe_narrow_index_dtype,
 }
